@@ -57,14 +57,13 @@ def filterStep (s : FilterSt) (toks : List String) : FilterSt × String :=
   | ["add", key, hs] =>
     match unhex key, parseNats hs with
     | some key, some hs =>
-      let s1 := { s with hashes := (key, hs) :: s.hashes }
-      ({ s1 with f := Filter.add s1.h s1.f key }, "ok")
+      -- (the hash family is given pointwise by the harness: only this key's values are needed here)
+      ({ s with f := Filter.add (fun i _ => hs.getD i 0) s.f key }, "ok")
     | _, _ => (s, "bad-op")
   | ["has", key, hs] =>
     match unhex key, parseNats hs with
     | some key, some hs =>
-      let s1 := { s with hashes := (key, hs) :: s.hashes }
-      (s, showBool (Filter.contains s1.h s.f key))
+      (s, showBool (Filter.contains (fun i _ => hs.getD i 0) s.f key))
     | _, _ => (s, "bad-op")
   | ["bits"] => (s, String.ofList (s.f.bits.map fun b => if b then '1' else '0'))
   | _ => (s, "bad-op")
